@@ -89,7 +89,7 @@ func Harness_C18_static() {
 // carrying the NYCT trip descriptor and an NYCT-format trip id, plus a plain entity.
 func hNyctMsg() *gtfsrt.FeedMessage {
 	msg := hRealtimeMsg()
-	tid, _ := hNyctTripID("nyct.trip")
+	tid := "012345_A..N" // the values do not matter for footprints: a concrete NYCT-format id keeps the queries small
 	route := "M"
 	train := "T"
 	assigned := true
